@@ -47,6 +47,7 @@ def judge(fam, ops):
         return {"kind": "driver", "at": len(ml), "detail": "model driver failed rc=%s %s" % (mrc, merr[-300:])}
     n = min(len(cl), len(ml))
     first_model = None
+    first_thm = None
     for i in range(n):
         mm, sp = split_model_line(ml[i])
         op = ops[i] if i < len(ops) else ""
@@ -59,7 +60,11 @@ def judge(fam, ops):
         if not c_ok_spec:
             return {"kind": "spec", "at": i, "detail": "op %r: implementation %r, spec %r (model %r)" % (op, c, spec_line, mm)}
         if sp is not None:
-            return {"kind": "thm", "at": i, "detail": "op %r: model %r differs from spec %r; implementation %r" % (op, mm, sp, c)}
+            # the model leaves the spec here while the implementation follows the spec; keep scanning: a later line can
+            # still show the implementation itself leaving the spec (the property failing on this input)
+            if first_thm is None:
+                first_thm = {"kind": "thm", "at": i, "detail": "op %r: model %r differs from spec %r; implementation %r" % (op, mm, sp, c)}
+            continue
         if c != mm and first_model is None:
             # correspondence differs here; keep scanning: the spec column is a function of the op history alone,
             # so a later line can still show the property itself failing on this input
@@ -76,8 +81,8 @@ def judge(fam, ops):
     if len(cl) != len(ml):
         if len(ml) < len(cl) and ml and (ml[-1] == "ub" or ml[-1].startswith("fault")):
             return {"kind": "spec", "at": len(ml) - 1, "detail": "model predicts %s, implementation went on" % ml[-1]}
-        return first_model or {"kind": "model", "at": n, "detail": "answer counts differ: implementation %d, model %d" % (len(cl), len(ml))}
-    return first_model
+        return first_thm or first_model or {"kind": "model", "at": n, "detail": "answer counts differ: implementation %d, model %d" % (len(cl), len(ml))}
+    return first_thm or first_model
 
 
 def shrink(fam, ops, kind, budget=150, wall_s=60.0):
